@@ -260,7 +260,14 @@ func bodyAllowed(status int) bool {
 	return true
 }
 
+// IOPoint, when set, is called at the start of every Write and Flush of a Rec and before every operation of the
+// probe directive (the E2 harnesses make these scheduling points: I/O is where overlapping requests interleave).
+var IOPoint func()
+
 func (w *Rec) Write(p []byte) (int, error) {
+	if IOPoint != nil {
+		IOPoint()
+	}
 	if !w.Committed {
 		w.WriteHeader(200)
 	}
@@ -320,6 +327,9 @@ func (w *Rec) ReadFrom(r io.Reader) (int64, error) {
 }
 
 func (w *Rec) Flush() {
+	if IOPoint != nil {
+		IOPoint()
+	}
 	if !w.Committed {
 		w.WriteHeader(200)
 	}
